@@ -879,7 +879,10 @@ func TestC11(t *testing.T) {
 		dl = append(dl, d)
 	}
 	sort.Strings(dl)
+	resumed := resumedCases(p, env.Seed+1, env.Thorough())
+	cases = append(cases, resumed...)
 	run.Main(t, "C11", cases, map[string]any{
+		"resumed_policy_change_cases": len(resumed),
 		"core_product": nCore, "version_ranges": len(ranges), "suite_shapes": len(suiteShapes), "server_credentials": creds,
 		"curve_shapes": len(curveShapes), "ems_policies": 3,
 		"deviation_values": len(devs), "deviation_dimensions": dl, "deviations_max": kDev, "deviation_sets": len(sets), "bases": len(bs), "deviation_cases": nDev,
